@@ -560,3 +560,14 @@ def run(tier, seed):
                                      "operand a complex"],
                         violations=rep.n_violations())
     return rc
+
+
+def replay(path, seed):
+    """A replay file names a descriptor class and up to five calls; the calls only make sense together with the
+    generated modules, so the quick tier is run again (same seed -> same modules and calls) and the file's class must recur."""
+    with open(path) as f:
+        want = json.load(f)["descriptor"]
+    rc = run("quick", seed)
+    p = os.path.join(core.REPLAY_DIR, PROP, os.path.basename(path))
+    print("replay: class %s %s" % (json.dumps(want, sort_keys=True), "reproduced" if os.path.exists(p) else "not reproduced"))
+    return rc
